@@ -332,7 +332,7 @@ def execute(plan, oracles=(), generate=False, keep_states=False, on_loaded=None,
                 seams.BUGGIFY.disarm()
                 ctx = None
                 for o in oracles:
-                    run.violations.extend(o.aborted(run, k, e) or ())
+                    run.violations.extend(o.aborted(run, k, e, closing=False) or ())
                 break
             fired = seams.BUGGIFY.disarm() if (fails and rs.get("buggify")) else []
             for site, n in fired:
@@ -374,8 +374,17 @@ def execute(plan, oracles=(), generate=False, keep_states=False, on_loaded=None,
                 if vs:
                     run.violations.extend(vs)
             if close:
-                with seams.quiet():
-                    hive_cosim.close(rp)
+                try:
+                    with seams.quiet():
+                        hive_cosim.close(rp)
+                except Exception as e:
+                    # an exception escaping HIVE while it writes its outputs: the run is aborted like one stopped in a step; an
+                    # oracle that needs those outputs says what that means for its property (closing=True)
+                    run.aborted = "close: %s" % "".join(traceback.format_exception(type(e), e, e.__traceback__)[-3:]).strip()
+                    run.stats["hive_exception"] += 1
+                    for o in oracles:
+                        run.violations.extend(o.aborted(run, run.steps_done, e, closing=True) or ())
+                    return run
                 for o in oracles:
                     vs = o.closed(run, rp)
                     if vs:
@@ -473,7 +482,7 @@ class Oracle:
     def closed(self, run, rp):
         return ()
 
-    def aborted(self, run, k, exc):
+    def aborted(self, run, k, exc, closing=False):
         return ()
 
     def nontrivial(self, run):
